@@ -103,6 +103,8 @@ def reach():
                 continue
             if k.startswith("probe.fault_") and not fault_arm:
                 continue
+            if k == "probe.fork_handlers_run":
+                continue  # nitro registers no fork handlers; counts what a changed sink registers
             if k == "fault.lock.timeout":
                 continue  # fires only if the code under test uses timed locks (nitro does not; mutants/benign variants do)
             if prop == "C09" and k == "probe.records_through_sequence_sink":
